@@ -707,13 +707,14 @@ Error RACFGBuilder::on_before_invoke(InvokeNode* invoke_node) noexcept {
                 return make_error(Error::kInvalidAssignment);
               }
 
-              ASMJIT_PROPAGATE(move_reg_to_stack_arg(invoke_node, arg, reg));
+              // The stack slot receives the pointer - `arg.type_id()` is the type of the value it points to.
+              ASMJIT_PROPAGATE(cc().mov(ptr(_pass._sp.as<Gp>(), arg.stack_offset()), reg.as<Gp>()));
               continue;
             }
 
+            // Copies the vector to a temporary and stores the address of the temporary to the stack slot of the argument.
             Reg indirect_reg;
             ASMJIT_PROPAGATE(move_vec_to_ptr(invoke_node, arg, reg.as<Vec>(), Out(indirect_reg)));
-            ASMJIT_PROPAGATE(move_reg_to_stack_arg(invoke_node, arg, indirect_reg));
           }
           else {
             ASMJIT_PROPAGATE(move_reg_to_stack_arg(invoke_node, arg, reg));
@@ -829,6 +830,11 @@ Error RACFGBuilder::on_invoke(InvokeNode* invoke_node, RAInstBuilder& ib) noexce
         RAWorkReg* work_reg;
         ASMJIT_PROPAGATE(_pass.virt_index_as_work_reg(&work_reg, Operand::virt_id_to_index(reg.id())));
 
+        if (arg.is_indirect() && arg.is_stack()) {
+          // The address has already been stored to the stack by `on_before_invoke()`.
+          continue;
+        }
+
         if (arg.is_indirect()) {
           RegGroup reg_group = work_reg->group();
           if (reg_group != RegGroup::kGp) {
@@ -900,7 +906,7 @@ static inline OperandSignature vec_reg_signature_by_size(uint32_t size) noexcept
 
 Error RACFGBuilder::move_vec_to_ptr(InvokeNode* invoke_node, const FuncValue& arg, const Vec& src, Out<Reg> out) noexcept {
   Support::maybe_unused(invoke_node);
-  ASMJIT_ASSERT(arg.is_reg());
+  ASMJIT_ASSERT(arg.is_indirect());
 
   uint32_t arg_size = TypeUtils::size_of(arg.type_id());
   if (arg_size == 0) {
